@@ -291,7 +291,7 @@ func runCheck(prop, tier string, o opts) int {
 			deadline = t0.Add(time.Duration(n) * time.Second)
 		}
 	}
-	budget := 100 * time.Second
+	budget := 600 * time.Second
 	if tier == "thorough" {
 		budget = 45 * time.Minute
 	}
